@@ -43,7 +43,7 @@ let model_kv (s : state) : (string * string) list =
   @ L.concat_map (fun (p : pool) ->
       [ (Printf.sprintf "pool:%s:%s" (zs p.pl_app) (zs p.pl_id),
          cat [zs p.pl_pair; b p.pl_ranged; b p.pl_disabled; zs p.pl_last_dep; zs p.pl_last_wd]);
-        (let d = pool_denom p.pl_app p.pl_id in (Printf.sprintf "sup:%s" (zs d), zs (s.sup d))) ]) s.pools
+        (let d = pool_denom p.pl_app p.pl_id in (Printf.sprintf "sup:%s" (zs d), zs (s.sup p.pl_app p.pl_id))) ]) s.pools
   @ L.map (fun (r : depreq) ->
       (Printf.sprintf "dep:%s:%s:%s" (zs r.d_app) (zs r.d_pool) (zs r.d_id),
        cat [zs r.d_owner; zs r.d_x; zs r.d_y; zs r.d_ax; zs r.d_ay; zs r.d_pc; zs r.d_status])) s.deps
@@ -244,7 +244,7 @@ let run_prop (prop : string) (path : string) =
                                 with Not_found -> None) ids in
        bump "eval:C07_mm";
        if not (holds_C07_mm sts) then
-         pf ~pred:"holds_C07_mm_cancel" ~kf:(if kf_C07_1 (z a) (z p) then "kf_C07_1" else "none")
+         pf ~pred:"holds_C07_mm_cancel" ~kf:"none"
            ~detail:(Printf.sprintf "app=%s_pair=%s_indexed=%d_still_live=%d" a p (L.length ids) (L.length (L.filter is_live sts)))
      | _ -> ());
     pending_mm := None;
